@@ -140,6 +140,13 @@ type loopInfo struct {
 	fresh    map[string]bool
 	mapOps   []mapOp
 	callMods []callMod
+	fieldSts []fieldStore
+}
+
+// fieldStore is a store to fields of the object a (possibly loop-invariant) pointer value denotes.
+type fieldStore struct {
+	root ssa.Value
+	keys []string
 }
 
 func newExec(P *Program, C *Contracts, key string) (*Exec, error) {
